@@ -9,7 +9,7 @@ CONSTANTS SlotDur = 3
  MaxTime = 26
  MaxFail = 1
  Interleave = FALSE
- MaxJump = 2
+ MaxJump = 1
  BVariants = {1}
  AttOffs = {0}
  ProMenu = {1}
